@@ -1212,4 +1212,92 @@ theorem getdoc_is_not_the_mro_walk :
     ∧ PyMro.inspectGetdoc (PyMro.withObject exBases) owns hasDoc 4 0 = some 1 := by
   decide
 
+/-! ## 9. The second pass of base resolution (`compute_mro.init_finalbaseobjects`)
+
+Whichever class's MRO is computed first, a class's `_finalbaseobjects` are its unresolved base
+names looked up in the scope of the class that *declares* them. -/
+
+/-- every cached `_finalbaseobjects` is the one computed in the declaring class's own scope -/
+def Canonical (d : Decls) (c : Cache) : Prop :=
+  ∀ o fb, c.get o = some fb → fb = finalOf d (d.scope o) o
+
+theorem cache_get_cons (o o' : Nat) (fb : List (Option Nat)) (c : Cache) :
+    Cache.get ((o, fb) :: c) o' = if o = o' then some fb else c.get o' := by
+  by_cases h : o = o' <;> simp [Cache.get, List.find?_cons, h]
+
+theorem initFinal_canonical (d : Decls) (cls : Nat) :
+    ∀ (f o : Nat) (c : Cache), Canonical d c →
+      Canonical d (initFinal d (fun _ o => d.scope o) cls f o c) := by
+  intro f
+  induction f with
+  | zero => intro o c h; exact h
+  | succ f ih =>
+    intro o c hc
+    simp only [initFinal]
+    cases hg : c.get o with
+    | some _ => exact hc
+    | none =>
+      simp only []
+      split
+      · exact hc
+      · have hfold : ∀ (l : List (Option Nat)) (c : Cache), Canonical d c →
+            Canonical d (l.foldl (fun c b => match b with
+              | some b => initFinal d (fun _ o => d.scope o) cls f b c | none => c) c) := by
+          intro l
+          induction l with
+          | nil => intro c h; exact h
+          | cons b l ihl =>
+            intro c h
+            simp only [List.foldl_cons]
+            apply ihl
+            cases b with
+            | none => exact h
+            | some b => exact ih b c h
+        intro o' fb' hget
+        rw [cache_get_cons] at hget
+        by_cases ho : o = o'
+        · subst ho
+          simp at hget
+          exact hget.symm
+        · simp only [ho, if_false] at hget
+          exact hfold _ c hc o' fb' hget
+
+/-- **second_pass_canonical**: after `_init_mro` has run for any sequence of classes, every
+`_finalbaseobjects` that is set is the declaring-scope resolution. -/
+theorem second_pass_canonical (d : Decls) (fuel : Nat) (triggers : List Nat) :
+    Canonical d (secondPass d (fun _ o => d.scope o) fuel triggers) := by
+  have : ∀ (ts : List Nat) (c : Cache), Canonical d c →
+      Canonical d (ts.foldl (fun c cls => initFinal d (fun _ o => d.scope o) cls fuel cls c) c) := by
+    intro ts
+    induction ts with
+    | nil => intro c h; exact h
+    | cons t ts ih => intro c h; exact ih _ (initFinal_canonical d t fuel t c h)
+  exact this triggers [] (by intro o fb h; simp [Cache.get] at h)
+
+/-- **second_pass_trigger_independent**: the resolved bases of a class do not depend on which
+subclasses' MROs were computed before, nor in which order. -/
+theorem second_pass_trigger_independent (d : Decls) (f1 f2 : Nat) (t1 t2 : List Nat) (o : Nat)
+    (fb1 fb2 : List (Option Nat))
+    (h1 : (secondPass d (fun _ o => d.scope o) f1 t1).get o = some fb1)
+    (h2 : (secondPass d (fun _ o => d.scope o) f2 t2).get o = some fb2) : fb1 = fb2 := by
+  rw [second_pass_canonical d f1 t1 o fb1 h1, second_pass_canonical d f2 t2 o fb2 h2]
+
+/-- three modules: A (class 0, scope 0), `class B(A)` (class 1, scope 1, name 10 = "A" bound in
+scope 1 only), `class C(B)` (class 2, scope 2, name 11 = "B"); nothing resolved in the AST pass. -/
+def exDecls : Decls where
+  scope := id
+  raw := fun o => if o = 1 then [10] else if o = 2 then [11] else []
+  initial := fun o => if o = 1 then [none] else if o = 2 then [none] else []
+  resolve := fun sc n => if sc = 1 ∧ n = 10 then some 0 else if sc = 2 ∧ n = 11 then some 1 else none
+
+example : (secondPass exDecls (fun _ o => exDecls.scope o) 3 [2, 1, 0]).get 1 = some [some 0]
+    ∧ (secondPass exDecls (fun _ o => exDecls.scope o) 3 [1, 2, 0]).get 1 = some [some 0] := by decide
+
+/-- Looking the name up in the scope of the class whose MRO is being computed (instead of the
+declaring class) is *not* trigger independent: reached first through C, B loses its base A. -/
+theorem second_pass_wrong_scope_counterexample :
+    (secondPass exDecls (fun cls _ => exDecls.scope cls) 3 [2, 1, 0]).get 1 = some [none]
+    ∧ (secondPass exDecls (fun cls _ => exDecls.scope cls) 3 [1, 2, 0]).get 1 = some [some 0] := by
+  decide
+
 end Mro
